@@ -295,6 +295,65 @@ pub fn dump(storage: &Storage, sites: &[Site], prefix: &str, out: &mut Vec<Strin
     }
 }
 
+/// C17, last clause: items of different storages are unequal and unordered, whatever their
+/// positions; events of one storage are equal only to themselves and ordered by capture order.
+pub fn cross_storage_laws(a: &Storage, b: &Storage, fails: &mut Vec<String>) {
+    let (sa, sb): (Vec<CapturedSpan<'_>>, Vec<CapturedSpan<'_>>) = (a.all_spans().collect(), b.all_spans().collect());
+    for (i, x) in sa.iter().enumerate() {
+        for (j, y) in sb.iter().enumerate() {
+            let (eq, ord) = (x == y, x.partial_cmp(y));
+            if eq || ord.is_some() || y.partial_cmp(x).is_some() || x < y || x > y || x <= y || x >= y {
+                fails.push(format!("C17 span {i} of one storage and span {j} of another: == is {eq}, partial_cmp is {ord:?} (must be unequal and unordered)"));
+                return;
+            }
+        }
+    }
+    let (ea, eb): (Vec<CapturedEvent<'_>>, Vec<CapturedEvent<'_>>) = (a.all_events().collect(), b.all_events().collect());
+    for (i, x) in ea.iter().enumerate() {
+        for (j, y) in eb.iter().enumerate() {
+            let (eq, ord) = (x == y, x.partial_cmp(y));
+            if eq || ord.is_some() || y.partial_cmp(x).is_some() || x < y || x > y {
+                fails.push(format!("C17 event {i} of one storage and event {j} of another: == is {eq}, partial_cmp is {ord:?} (must be unequal and unordered)"));
+                return;
+            }
+        }
+    }
+    for (i, x) in ea.iter().enumerate() {
+        for (j, y) in ea.iter().enumerate() {
+            let (eq, ord) = (x == y, x.partial_cmp(y));
+            if eq != (i == j) || ord != Some(i.cmp(&j)) {
+                fails.push(format!("C17 events {i} and {j}: == is {eq}, partial_cmp is {ord:?}"));
+                return;
+            }
+        }
+    }
+}
+
+/// `X` lines: equality and order of handles, within and across storages, as the real impls of
+/// `PartialEq` / `PartialOrd` answer (the driver answers the same questions from the model).
+pub fn identity_doc(a: &Storage, la: &str, b: &Storage, lb: &str, out: &mut Vec<String>) {
+    fn cmp_tok(o: Option<std::cmp::Ordering>) -> &'static str {
+        match o {
+            None => "none",
+            Some(std::cmp::Ordering::Less) => "lt",
+            Some(std::cmp::Ordering::Equal) => "eq",
+            Some(std::cmp::Ordering::Greater) => "gt",
+        }
+    }
+    let (sa, sb): (Vec<CapturedSpan<'_>>, Vec<CapturedSpan<'_>>) = (a.all_spans().take(5).collect(), b.all_spans().take(5).collect());
+    for (i, x) in sa.iter().enumerate() {
+        for (j, y) in sb.iter().enumerate() {
+            out.push(format!("X sp {la} {i} {lb} {j} eq={} cmp={}", u8::from(x == y), cmp_tok(x.partial_cmp(y))));
+        }
+    }
+    let (ea, eb): (Vec<CapturedEvent<'_>>, Vec<CapturedEvent<'_>>) = (a.all_events().take(5).collect(), b.all_events().take(5).collect());
+    for (i, x) in ea.iter().enumerate() {
+        for (j, y) in eb.iter().enumerate() {
+            out.push(format!("X ev {la} {i} {lb} {j} eq={} cmp={}", u8::from(x == y), cmp_tok(x.partial_cmp(y))));
+        }
+    }
+}
+
 /// Raw links (`F` lines) and derived query results (`Q` lines) of a real storage.
 pub fn forest_doc(storage: &Storage) -> Vec<String> {
     let spans: Vec<CapturedSpan<'_>> = storage.all_spans().collect();
@@ -579,6 +638,31 @@ impl Suite for Capture {
                 }
             }
             dumps.push(d);
+        }
+        // ---- C17: items of different storages (other layers of the stack, or a second run of the
+        // ---- same program) are unequal and unordered at every pair of positions
+        if !panicked {
+            let second;
+            let others: Vec<&SharedStorage> = if storages.len() > 1 {
+                storages.iter().skip(1).collect()
+            } else {
+                second = run_capture(&prog, &cfg).0;
+                second.iter().collect()
+            };
+            if let Some(first) = storages.first() {
+                let other_label = if storages.len() > 1 { "L1" } else { "R0" };
+                for (n, o) in others.into_iter().enumerate() {
+                    let _ = catch_unwind(AssertUnwindSafe(|| {
+                        let (fl, ol) = (first.lock(), o.lock());
+                        cross_storage_laws(&fl, &ol, &mut out.fails);
+                        if n == 0 {
+                            identity_doc(&fl, "L0", &fl, "L0", &mut out.docs);
+                            identity_doc(&fl, "L0", &ol, other_label, &mut out.docs);
+                            identity_doc(&ol, other_label, &fl, "L0", &mut out.docs);
+                        }
+                    }));
+                }
+            }
         }
         // ---- C16: each layer captures what it would capture alone
         if cfg.layers.len() > 1 || !cfg.pass.is_empty() {
